@@ -2,6 +2,7 @@
 import json
 
 from lib import common as C
+from lib import lockskel as LS
 from lib import histcheck as H
 from lib import histprops as P
 from lib import parcheck as PC
@@ -90,6 +91,7 @@ def run(rep):
     proof_ok = C.proof_step(rep, "C08")
     C.ensure_driver()
     fsdbh = C.ensure_harness()
+    sk = LS.check(rep, fsdbh, ["Store", "UpdateTx"])
     known = {f["id"]: f for f in C.known_findings("C08") if f.get("status") == "open"}
     # 1. scripted witnesses
     wit = [c for c in P.corpus("conc_witnesses.txt") if c.split("\n")[0].split()[1] in ("d9", "d10")]
@@ -106,10 +108,12 @@ def run(rep):
             rep.violation(dict(kind="oracle", what=why, case=c, impl=o))
     # 2. generated races under the real scheduler
     n = 60 if rep.tier == "quick" else 1200
+    if LS.broken(sk):
+        n = max(n, 800)
     gen = [gen_case(rng, "s%d" % i) for i in range(n)]
     cases = [g[0] for g in gen]
     cases = [c for c in cases]
-    impl = H.run_sharded(fsdbh, "hist", cases)
+    impl = H.run_sharded(fsdbh, "hist", cases, timeout=150 if rep.tier == "quick" else 900)
     orders, unmatched, kinds = {}, 0, {}
     for (c, kind), o in zip(gen, impl):
         kinds[kind] = kinds.get(kind, 0) + 1
@@ -138,6 +142,7 @@ def run(rep):
         traces_validated_against_impl=len(cases) + len(wit),
         samples=[dict(case=wit[0].split("\n"), impl=wout[0]), dict(case=cases[0].split("\n"), impl=impl[0])],
         refuted_theorems=["C08_fractured_refuted", "C08_gc_horizon_refuted"], proof_ok=proof_ok)
+    LS.conclude(rep, sk, 'sequence numbers drawn inside the critical section that publishes the version: C08_needs_held')
     rep.assumptions = ["the theorems C08_repeatable / C08_snapshot_is_one_state assume atomic Begin, Commit and collection; the code's "
                        "Begin is NOT atomic w.r.t. a multi-key publication and the collector: known findings D9, D10",
                        "un-paused races are explored by the Go scheduler only (support); the scripted schedules are deterministic"]
